@@ -301,6 +301,19 @@ def step(op, env):
         return V(a.names, a.sizes, a.arr.reshape(tuple(a.arr.shape[: len(a.names)]) + tuple(op["shape"])))
     if t == "align":
         return env[op["a"]]
+    if t == "integrate":  # sum over the (integer) variables of exp(log_measure) * integrand
+        lm, f = env[op["a"]], env[op["b"]]
+        if lm.event:
+            raise Unsupported("non-scalar log-measure")
+        names, sizes = _union([lm, f])
+        if any(n not in sizes for n in op["vars"]):
+            raise Unsupported("integration variable that neither operand has")
+        with np.errstate(all="ignore"):
+            w = np.exp(_expand(lm, names, sizes).astype(np.float64))
+            arr = w.reshape(w.shape + (1,) * len(f.event)) * _expand(f, names, sizes)
+            for ax in sorted((names.index(n) for n in op["vars"]), reverse=True):
+                arr = arr.sum(axis=ax)
+        return V([n for n in names if n not in op["vars"]], sizes, arr)
     if t == "approximate":  # exact interpretations return the model itself
         env[op["b"]]
         return env[op["a"]]
